@@ -266,3 +266,157 @@ def grouping_rules(chk, m, rid):
         chk.decide(R, 'readGrouping: %s' % label, got, {w},
                    'readGrouping("[]") on %s gives %s, expected %s' % ([t.attrs['char'] if t.attrs['catcode'] else '\\' + t.attrs['char'] for t in stream],
                                                                     sorted(got, key=repr), w), chk.where(fn))
+
+
+# ---------------------------------------------------------------------------
+# numeric readers, decided on concrete character tokens
+# ---------------------------------------------------------------------------
+SIGN = 3        # marker returned for readOptionalSigns: a result shows how often the sign was applied
+
+
+def ch(c, catcode=12):
+    return A.TokStr(c, nodeType=3, catcode=catcode, param=False)
+
+
+def param(value):
+    return A.TokStr('', nodeType=1, catcode=0, param=True, value=value, nodeName='reg')
+
+
+class NumHooks(TokenStreamHooks):
+    READERS = {'self.readDecimal': 5.0, 'self.readUnitOfMeasure': 7, 'self.readDimen': 10, 'self.readMuDimen': 10, 'self.readStretch': 1,
+               'self.readShrink': 2, 'self.readMuStretch': 1, 'self.readMuShrink': 2, 'self.readInteger': 11, 'self.readNumber': 11}
+
+    def __init__(self, model, cls, stream, own):
+        TokenStreamHooks.__init__(self, model, cls, stream, stream)
+        self.own = own        # name of the reader under analysis (never answered by a marker)
+
+    def call(self, interp, node, fname, args, kwargs, state):
+        import string
+        if fname == 'self.readOptionalSigns':
+            state.env['__signs'] = state.env.get('__signs', 0) + 1
+            return SIGN
+        if fname == 'self.readSequence' and args:
+            chars = args[0]
+            seq = {string.octdigits: '17', string.hexdigits: '1F', string.digits: '2'}.get(chars)
+            if seq is None:
+                return None
+            opt = kwargs.get('optspace', args[1] if len(args) > 1 else True)
+            state.env['__optspace'] = state.env.get('__optspace', ()) + (opt,)
+            return seq
+        if fname == 'self.readOneOptionalSpace':
+            state.env['__optspace'] = state.env.get('__optspace', ()) + (True,)
+            return A.NONE
+        if fname in self.READERS and fname != 'self.' + self.own:
+            return self.READERS[fname]
+        if fname not in ('number', 'dimen', 'mudimen', 'float', 'glue', 'muglue') and isinstance(node.func, ast.Name):
+            fv = state.env.get(node.func.id)
+            if isinstance(fv, M.ClassInfo) and fv.name in ('number', 'dimen', 'mudimen', 'glue', 'muglue'):
+                fname = fv.name         # a numeric class handed over as a value
+        if fname in ('number', 'dimen', 'mudimen', 'float', 'glue', 'muglue') and len(args) == 1 and not kwargs:
+            a = args[0]
+            if isinstance(a, A.TokStr) and a._attrs.get('param'):
+                return a._attrs['value']
+            if isinstance(a, (int, float)) and not isinstance(a, bool):
+                return float(a) if fname == 'float' else a
+            if fname == 'float' and isinstance(a, str):
+                try:
+                    return float(a)
+                except ValueError:
+                    return None
+            return None
+        if fname in ('glue', 'muglue') and len(args) == 3:
+            return (fname,) + tuple(args)
+        if fname == 'isinstance' and len(args) == 2 and isinstance(args[0], A.TokStr) and text(node.args[1]).endswith('ParameterCommand'):
+            return bool(args[0]._attrs.get('param'))
+        return TokenStreamHooks.call(self, interp, node, fname, args, kwargs, state)
+
+    def keep(self, ev):
+        return ev[0] == 'call' and ev[1] in ('self.pushToken', 'self.pushTokens')
+
+
+def number_rules(chk, m, rid):
+    R = chk.rule(rid, 'numeric scanners on concrete character tokens (abstract interpretation): readInteger reads decimal, octal '
+                 "('), hexadecimal (\") and alphabetic (`) constants and registers, readDecimal fractions, readDimen/readGlue/"
+                 'readMuGlue their parts; the sign read by readOptionalSigns is applied exactly once to every value, a constant '
+                 'takes one optional space, and a token that is not part of the number is pushed back; stretch/shrink accept the units of '
+                 'their own dimension class plus the fil orders', 18)
+    TeX = m.cls('plasTeX.TeX', 'TeX')
+    S = SIGN
+    cases = [
+        ('readInteger', 'octal constant', [ch("'")], {'optspace': True}, S * 0o17, (), (True,)),
+        ('readInteger', 'hexadecimal constant', [ch('"')], {'optspace': True}, S * 0x1F, (), (True,)),
+        ('readInteger', 'decimal constant', [ch('4'), ch('x', 11)], {'optspace': True}, S * 42, ('x',), (True,)),
+        ('readInteger', 'alphabetic constant', [ch('`'), ch('A', 11)], {'optspace': True}, S * 65, (), (True,)),
+        ('readInteger', 'register', [param(7)], {'optspace': True}, S * 7, (), ()),
+        ('readInteger', 'constant times register', [ch('4'), param(5)], {'optspace': True}, S * 42 * 5, (), (True,)),
+        ('readDecimal', 'digits and fraction', [ch('4'), ch('.')], {}, S * 42.2, (), None),
+        ('readDecimal', 'digits only', [ch('4'), ch('x', 11)], {}, S * 42.0, ('x',), None),
+        ('readDecimal', 'leading point', [ch('.')], {}, S * 0.2, (), None),
+        ('readDecimal', 'radix constant', [ch("'")], {}, S * 11, ("'",), None),
+        ('readDimen', 'register', [param(7)], {'units': ['pt']}, S * 7, (), None),
+        ('readDimen', 'number and unit', [ch('1')], {'units': ['pt']}, S * 5.0 * 7, ('1',), None),
+        ('readGlue', 'register', [param(7)], {}, S * 7, (), None),
+        ('readGlue', 'dimension, stretch, shrink', [ch('1')], {}, ('glue', S * 10, 1, 2), ('1',), None),
+        ('readMuGlue', 'register', [param(7)], {}, S * 7, (), None),
+        ('readMuGlue', 'dimension, stretch, shrink', [ch('1')], {}, ('muglue', S * 10, 1, 2), ('1',), None),
+    ]
+    for fname, label, stream, env, want, pushed, optspace in cases:
+        fn = m.find_method(TeX, fname)
+        need(fn is not None, 'TeX.%s not found' % fname)
+        chk.analysed(fn)
+        h = NumHooks(m, TeX, stream, fname)
+        h.should_inline = A.private_only
+        it = A.Interp(model=m, scope=fn, hooks=h, max_iter=len(stream) + 2, exc_edges=False, inline=3)
+        outs = it.run_function(fn, env=dict(env))
+        chk.paths += len(outs)
+        got = set()
+        for kind, s2, v in outs:
+            if kind != 'return':
+                continue
+            back = tuple(str(a) for e in s2.trace for a in e[2] if isinstance(a, str))
+            val = v
+            if isinstance(v, float):
+                val = round(v, 6)
+            rec = (repr(val), back)
+            if optspace is not None:
+                rec += (s2.env.get('__optspace', ()),)
+            got.add(rec)
+        w = (repr(round(want, 6) if isinstance(want, float) else want), tuple(pushed)) + ((optspace,) if optspace is not None else ())
+        chk.decide(R, '%s: %s' % (fname, label), got, {w},
+                   '%s on %s (sign marker %d): (value, tokens pushed back%s) = %s, expected %s - the sign must be applied exactly once, '
+                   'the constant read in its radix, and a token that is not part of the number given back'
+                   % (fname, [str(t) or '<register>' for t in stream], S, ', optional-space flags' if optspace is not None else '',
+                      sorted(got, key=repr), w), chk.where(fn))
+
+    # unit tables of the stretch / shrink components
+    dimen = m.cls('plasTeX', 'dimen')
+    mudimen = m.cls('plasTeX', 'mudimen')
+    base = {'readStretch': m.class_const(dimen, 'units'), 'readShrink': m.class_const(dimen, 'units'),
+            'readMuStretch': m.class_const(mudimen, 'units'), 'readMuShrink': m.class_const(mudimen, 'units')}
+    for fname, own in base.items():
+        fn = m.find_method(TeX, fname)
+        need(fn is not None and isinstance(own, list), 'TeX.%s / unit tables not found' % fname)
+        chk.analysed(fn)
+
+        class UH(SelfHooks):
+            def call(self, interp, node, fname2, args, kwargs, state):
+                if fname2 == 'self.readKeyword':
+                    return 'plus'
+                if fname2 in ('self.readDimen', 'self.readMuDimen'):
+                    state.env['__units'] = kwargs.get('units', args[0] if args else 'default')
+                    return 1
+                return None
+
+            def keep(self, ev):
+                return False
+        h = UH(m, TeX)
+        h.should_inline = A.private_only
+        it = A.Interp(model=m, scope=fn, hooks=h, max_iter=2, exc_edges=False, inline=2)
+        got = set()
+        for kind, s2, v in it.run_function(fn, env={}):
+            u = s2.env.get('__units')
+            got.add(tuple(sorted(u)) if isinstance(u, (list, tuple)) and A.is_concrete(u) else repr(u))
+        want = tuple(sorted(set(own) | {'fil', 'fill', 'filll'}))
+        chk.decide(R, '%s: units accepted' % fname, got, {want},
+                   '%s reads its amount with the units %s; expected the units of %s plus fil, fill, filll (%s)'
+                   % (fname, sorted(got, key=repr), 'mudimen' if 'Mu' in fname else 'dimen', list(want)), chk.where(fn))
